@@ -363,9 +363,15 @@ let read_file path = let ic = open_in_bin path in let n = in_channel_length ic i
    Not representable in the list-based model; the implementation is compared with the
    specification directly.  Two entries with 2 GiB values (holes) push the entry area over
    UINT32_MAX; eight small entries follow, each at its own restart point beyond the 4 GiB mark. *)
-let big_block_case acc =
+(* [entries_target]: None = entry region above 4 GiB (64-bit restart array); Some n = entry region of exactly n bytes,
+   n just below 4 GiB: the restart array is still 32-bit although the whole block (entries + restart array + count)
+   exceeds UINT32_MAX - the width is decided by the entry region alone *)
+let big_block_case ?entries_target acc =
   let path = Filename.concat (Wr.tmpdir ()) (Printf.sprintf "rd_big_%d.mtbl" (Unix.getpid ())) in
-  let table_json () = JO [ "source", JS "independent encoder, sparse file"; "layout", JS "one uncompressed v2 data block: a->2GiB zeros, b->2GiB zeros, c0..c7 -> v0..v7; restart points at a and at every c_i; 64-bit restart array" ] in
+  let table_json () = JO [ "source", JS "independent encoder, sparse file";
+                           "layout", JS (match entries_target with
+                               | None -> "one uncompressed v2 data block: a->2GiB zeros, b->2GiB zeros, c0..c7 -> v0..v7; restart points at a and at every c_i; 64-bit restart array"
+                               | Some n -> Printf.sprintf "one uncompressed v2 data block whose entry region is %d bytes (just below 4 GiB): a->2GiB zeros, b->zeros, c0..c7; restart points at a and at every c_i; 32-bit restart array, block larger than UINT32_MAX" n) ] in
   let big = 0x80000000 in
   let small = List.init 8 (fun i -> (Printf.sprintf "c%d" i, Printf.sprintf "v%d" i)) in
   let ok = (try
@@ -376,32 +382,37 @@ let big_block_case acc =
     let skip n = pos := !pos + n in
     (* sizes first *)
     let ehdr k vlen = Enc.varint 0 ^ Enc.varint (String.length k) ^ Enc.varint vlen ^ k in
-    let e_a = ehdr "a" big and e_b = ehdr "b" big in
-    let entries_len = String.length e_a + big + String.length e_b + big
-                      + List.fold_left (fun a (k, v) -> a + String.length (ehdr k (String.length v)) + String.length v) 0 small in
+    let small_len = List.fold_left (fun a (k, v) -> a + String.length (ehdr k (String.length v)) + String.length v) 0 small in
+    let e_a = ehdr "a" big in
+    let bigb = (match entries_target with None -> big | Some n -> n - (String.length e_a + big + 8 + small_len)) in
+    let e_b = ehdr "b" bigb in
+    let entries_len = String.length e_a + big + String.length e_b + bigb + small_len in
+    (match entries_target with Some n -> assert (entries_len = n) | None -> ());
     let nr = 1 + List.length small in
-    let blen = entries_len + 8 * nr + 4 in
+    let w = if entries_len > 0xFFFFFFFF then 8 else 4 in
+    let blen = entries_len + w * nr + 4 in
     let hdr = Enc.varint blen ^ Enc.le 4 0 in
     put hdr;
     let base = !pos in
     let restarts = ref [ 0 ] in
-    put e_a; skip big; put e_b; skip big;
+    put e_a; skip big; put e_b; skip bigb;
     List.iter (fun (k, v) -> restarts := (!pos - base) :: !restarts; put (ehdr k (String.length v)); put v) small;
-    List.iter (fun r -> put (Enc.le 8 r)) (List.rev !restarts);
+    List.iter (fun r -> put (Enc.le w r)) (List.rev !restarts);
     put (Enc.le 4 nr);
     let ibo = !pos in
     let iraw = Enc.varint 0 ^ Enc.varint 2 ^ Enc.varint 1 ^ "c7" ^ Enc.varint 0 ^ Enc.le 4 0 ^ Enc.le 4 1 in
     let ifr = Enc.frame ~version:2 iraw in
     put ifr;
-    let fields = [ ibo; 8192; 0; 10; 1; ibo; String.length ifr; 18; 2 * big + 16 ] in
+    let fields = [ ibo; 8192; 0; 10; 1; ibo; String.length ifr; 18; big + bigb + 16 ] in
     List.iter (fun f -> put (Enc.le 8 f)) fields;
     put (String.make (512 - 72 - 4) '\000'); put (Enc.le 4 0x4D54424C);
     Unix.close fd; true
   with _ -> false) in
   if not ok then bump acc "big_block_skipped(no sparse file)"
   else begin
-    bump acc "big_block_64bit_restarts";
-    record acc ~key:"big_block" ~nontrivial:true ~klass:"big_block_64bit_restarts" (lazy (table_json ()));
+    let kname = (match entries_target with None -> "big_block_64bit_restarts" | Some _ -> "big_block_just_below_4GiB_32bit_restarts") in
+    bump acc kname;
+    record acc ~key:kname ~nontrivial:true ~klass:kname (lazy (table_json ()));
     (match with_child_acc acc (fun a ->
        let r = c_reader_init path false false in
        if r = 0n then fail a ~kind:"spec_violation" ~what:"[C11] reader does not open a well-formed table whose data block exceeds 4 GiB" (table_json ())
@@ -409,7 +420,7 @@ let big_block_case acc =
          let src = c_reader_source r in
          let expect what got exp =
            if got <> exp then fail a ~kind:"spec_violation"
-               ~what:(Printf.sprintf "[C11] block above 4 GiB (64-bit restart array): %s returns %s, expected %s" what (show_e got) (show_e exp)) (table_json ()) in
+               ~what:(Printf.sprintf "[C11] block around 4 GiB (restart array width decided by the entry region): %s returns %s, expected %s" what (show_e got) (show_e exp)) (table_json ()) in
          List.iteri (fun i (k, v) ->
            let g = impl_create src (Get k) in
            expect ("get " ^ k) (fst (impl_step g Next)) (Some (k, v)); impl_destroy g;
@@ -593,4 +604,9 @@ let run ~tier ~seed ~only acc =
     incr idx
   done;
   if want () then big_block_case acc;
+  incr idx;
+  (* entry region 8 bytes short of 2^32 - 1: with 9 restarts the block itself is larger than UINT32_MAX *)
+  if want () then big_block_case ~entries_target:(0xFFFFFFFF - 8) acc;
+  incr idx;
+  if want () then big_block_case ~entries_target:0xFFFFFFFF acc;
   incr idx
